@@ -144,9 +144,21 @@ Proof.
   repeat split; try assumption; try apply Hn'; try apply Hp'; try apply Hd.
 Qed.
 
+(* one call of the adapter's literal(): related term and the adapter as it was, or the same exception *)
+Lemma tie_literal_call ig ak po (d : Dec) st lex l dt : Rcore ig ak po d st ->
+  match o_literal lex l dt (ad_of d), mk_literal ig lex l dt with
+  | (Val v, a'), Ok t => RT v (ATerm t) /\ RA a' (mk_ma ig ak po (ds_graph st))
+  | (Exn e, _), Err me => e = exn_of me
+  | _, _ => False
+  end.
+Proof.
+  intros (_ & _ & _ & Ha). pose proof (H_literal lex l dt _ _ Ha) as Hs. unfold a_literal in Hs. cbn [mk_ma ma_ig] in Hs.
+  destruct (mk_literal ig lex l dt) as [t|me]; destruct (o_literal lex l dt (ad_of d)) as [[v|e] a']; cbn [sim] in Hs; try contradiction; exact Hs.
+Qed.
+
 Lemma tie_dec_literal ig ak po (d : Dec) st m lex k : Rcore ig ak po d st ->
   msg_str (K := str) [] "lex" m = lex -> reads_lit k m ->
-  match g_literal m d, decode_literal lex k st with
+  match g_literal m d, decode_literal ig lex k st with
   | (Val v, d'), Ok (st', t) => RT v (ATerm t) /\ step_ok ig ak po d st d' st'
   | (Exn e, _), Err me => err_ok e me
   | _, _ => False
@@ -158,17 +170,21 @@ Proof.
   rewrite Hlex.
   destruct k as [|t|id]; cbn [reads_lit] in Hk.
   - destruct Hk as [Hl Hh]. rewrite Hl, Hh. cbn [is_nil negb].
-    pose proof (H_literal lex None None _ _ Ha) as Hs.
-    destruct (o_literal lex None None (ad_of d)) as [[v|e] a']; cbn [a_literal sim] in Hs; [|contradiction].
-    destruct Hs as [Hv Ha']. cbv beta iota zeta. split; [exact Hv|]. apply step_readapt; assumption.
+    pose proof (tie_literal_call ig ak po d st lex None None HR) as Hs. unfold bind.
+    destruct (o_literal lex None None (ad_of d)) as [[v|e] a']; destruct (mk_literal ig lex None None) as [tm|me]; try contradiction.
+    + destruct Hs as [Hv Ha']. cbv beta iota zeta. split; [exact Hv|]. apply step_readapt; assumption.
+    + right. exact Hs.
   - destruct Hk as [Hl Hh]. rewrite Hl, Hh. destruct t as [|c t]; cbn [is_nil negb].
-    + pose proof (H_literal lex None None _ _ Ha) as Hs.
-      destruct (o_literal lex None None (ad_of d)) as [[v|e] a']; cbn [a_literal sim] in Hs; [|contradiction].
-      destruct Hs as [Hv Ha']. cbv beta iota zeta. split; [exact Hv|]. apply step_readapt; assumption.
-    + match goal with |- context [o_literal lex ?l None (ad_of d)] =>
-        pose proof (H_literal lex l None _ _ Ha) as Hs; destruct (o_literal lex l None (ad_of d)) as [[v|e] a'] end;
-        cbn [a_literal sim] in Hs; [|contradiction].
-      destruct Hs as [Hv Ha']. cbv beta iota zeta. split; [exact Hv|]. apply step_readapt; assumption.
+    + pose proof (tie_literal_call ig ak po d st lex None None HR) as Hs. unfold bind.
+      destruct (o_literal lex None None (ad_of d)) as [[v|e] a']; destruct (mk_literal ig lex None None) as [tm|me]; try contradiction.
+      * destruct Hs as [Hv Ha']. cbv beta iota zeta. split; [exact Hv|]. apply step_readapt; assumption.
+      * right. exact Hs.
+    + unfold bind.
+      match goal with |- context [o_literal lex ?l None (ad_of d)] =>
+        pose proof (tie_literal_call ig ak po d st lex l None HR) as Hs;
+        destruct (o_literal lex l None (ad_of d)) as [[v|e] a']; destruct (mk_literal ig lex l None) as [tm|me]; try contradiction end.
+      * destruct Hs as [Hv Ha']. cbv beta iota zeta. split; [exact Hv|]. apply step_readapt; assumption.
+      * right. exact Hs.
   - destruct Hk as (Hl & Hh & Hi). rewrite Hl, Hh, Hi. cbn [is_nil negb].
     destruct Hd as [Hd Hz]. rewrite Hz. unfold nlen.
     destruct (N.of_nat (length (L.d_data (ds_datatypes st))) =? 0)%N eqn:E0.
@@ -180,8 +196,10 @@ Proof.
       2: { left. reflexivity. }
       destruct H1 as [-> Hd'].
       cbn [set_Decoder_datatypes Decoder_prefixes Decoder_adapter Decoder_names Decoder_datatypes Decoder_repeated_terms Decoder_cls_tag].
-      pose proof (H_literal lex None (Some dt') _ _ Ha) as Hs.
-      destruct (o_literal lex None (Some dt') (ad_of d)) as [[v|e] a']; cbn [a_literal sim] in Hs; [|contradiction].
+      unfold Encoder.lift. cbn [bind].
+      pose proof (tie_literal_call ig ak po d st lex None (Some dt') HR) as Hs.
+      destruct (o_literal lex None (Some dt') (ad_of d)) as [[v|e] a']; destruct (mk_literal ig lex None (Some dt')) as [tm|me]; cbv beta iota in Hs; try contradiction; cbn [bind].
+      2: { right. exact Hs. }
       destruct Hs as [Hv Ha'].
       cbn [set_Decoder_adapter Decoder_prefixes Decoder_adapter Decoder_names Decoder_datatypes Decoder_repeated_terms Decoder_cls_tag].
       split; [exact Hv|].
